@@ -71,7 +71,7 @@ func writeKinds(calls []httpsim.Call) string {
 
 func TestC19(t *testing.T) {
 	c := evid.New("C19")
-	c.Rule = "requests built from every route registered on the read-write router (walked with chi.Walk, so new routes are picked up), patterns instantiated with generated ledger names / ids / addresses / keys, plus paths assembled from route fragments; methods GET HEAD OPTIONS POST PUT PATCH DELETE TRACE CONNECT, lower-case and invented verbs; method-override headers and query parameters; bodies valid for the write routes (postings, script, metadata, bulk with all four actions) and junk; queries dryRun / cursor / continueOnFailure / pit. Oracle: zero calls to CreateTransaction / RevertTransaction / SaveMeta / DeleteMetadata on the backend of the read-only router. Non-trivial = the same request performs at least one write through the read-write router; distinct by (method, route pattern, write kinds)."
+	c.Rule = "requests built from every route registered on the read-write router (walked with chi.Walk, so new routes are picked up), patterns instantiated with generated ledger names / ids / addresses / keys, plus paths assembled from route fragments; methods GET HEAD OPTIONS POST PUT PATCH DELETE TRACE CONNECT, lower-case and invented verbs; method-override headers and query parameters; bodies valid for the write routes (postings, script, metadata, bulk with all four actions) and junk; queries dryRun / cursor / continueOnFailure / pit. One case in twenty is an overlap: 1-3 write requests whose bodies arrive slowly (a reader the harness unblocks) sit in the gate while read requests pass, then the bodies end in a drawn order. Oracle: zero calls to CreateTransaction / RevertTransaction / SaveMeta / DeleteMetadata on the backend of the read-only router. Non-trivial = the same request performs at least one write through the read-write router; distinct by (method, route pattern, write kinds)."
 	c.Assumptions = []string{"the backend is a recording fake; what counts is whether a write method is invoked at all"}
 	rwRoutes := httpsim.Routes(httpsim.NewRouter(httpsim.NewFakeBackend(), false))
 	if len(rwRoutes) < 20 {
@@ -85,6 +85,10 @@ func TestC19(t *testing.T) {
 	}
 	reached := map[string]bool{}
 	runProp(t, c, func(rt *rapid.T) {
+		if rapid.IntRange(0, 19).Draw(rt, "overlapFamily") == 0 {
+			c19Overlap(rt, c, writeRoutes)
+			return
+		}
 		roBackend, rwBackend := httpsim.NewFakeBackend(), httpsim.NewFakeBackend()
 		ro, rw := httpsim.NewRouter(roBackend, true), httpsim.NewRouter(rwBackend, false)
 		route := rapid.SampledFrom(rwRoutes).Draw(rt, "route")
@@ -235,7 +239,7 @@ func callMarker(c httpsim.Call) string {
 
 func TestC18(t *testing.T) {
 	c := evid.New("C18")
-	c.Rule = "bulk bodies of 0-8 elements over the four actions plus unknown / wrong-case / empty action strings, well-formed data per action (posting and script mode, account and transaction targets), per-element ik, a generated success/failure pattern with error classes (insufficient funds, validation, not found, internal), continueOnFailure in {absent,true,false,1,TRUE}; side class: one element whose data does not decode. Oracle (positional model): backend calls == executable elements up to and including the first failure (all of them with continue-on-failure), in order, each with its own parameters and ik; exactly one result per processed element, results[i] describing element i; nothing after the first failure; HTTP 400 iff a processed element failed. A second family (25%) serves the bulk through a real Commander over the model store with elements whose outcome is known by construction (funded / unfunded sources, existing / missing revert and metadata targets): besides the positional answer, the persisted log must hold exactly the successful elements, in order. A fourth family (5%) is scheduled: 2-5 bulk requests are executed, parked between execution and the writing of their response (verifhook point bulk.processed) and answered in a generated order on one processor, each answer judged position by position. A third family (5%) is concurrent: 2-8 clients send bulks of 1-40 marked elements (10% failing, continue-on-failure drawn) for 1-6 rounds in parallel against one router; every answer must describe its own request position by position, with its own failure signal, and each ledger must have received exactly its own elements in order. Non-trivial = >=3 elements with a failure strictly inside; distinct by (actions, failure pattern, flag)."
+	c.Rule = "bulk bodies of 0-8 elements over the four actions plus unknown / wrong-case / empty action strings, well-formed data per action (posting and script mode, account and transaction targets), per-element ik, a generated success/failure pattern with error classes (insufficient funds, conflict, compilation failed, no postings, metadata override, not found, internal), continueOnFailure in {absent,true,false,1,TRUE}; side class: one element whose data does not decode. Oracle (positional model): backend calls == executable elements up to and including the first failure (all of them with continue-on-failure), in order, each with its own parameters and ik; exactly one result per processed element, results[i] describing element i; nothing after the first failure; HTTP 400 iff a processed element failed. A second family (25%) serves the bulk through a real Commander over the model store with elements whose outcome is known by construction (funded / unfunded sources, existing / missing revert and metadata targets): besides the positional answer, the persisted log must hold exactly the successful elements, in order. A fourth family (5%) is scheduled: 2-5 bulk requests are executed, parked between execution and the writing of their response (verifhook point bulk.processed) and answered in a generated order on one processor, each answer judged position by position. A third family (5%) is concurrent: 2-8 clients send bulks of 1-40 marked elements (10% failing, continue-on-failure drawn) for 1-6 rounds in parallel against one router; every answer must describe its own request position by position, with its own failure signal, and each ledger must have received exactly its own elements in order. Non-trivial = >=3 elements with a failure strictly inside; distinct by (actions, failure pattern, flag)."
 	c.Assumptions = []string{"the backend is a recording fake answering from the generated failure pattern; an element with an unknown action cannot be executed and therefore counts as failing"}
 	runProp(t, c, func(rt *rapid.T) {
 		if rapid.IntRange(0, 3).Draw(rt, "realEngine") == 0 {
@@ -268,7 +272,7 @@ func TestC18(t *testing.T) {
 		failClass := make([]string, n)
 		for i := range failClass {
 			if rapid.IntRange(0, 3).Draw(rt, "fails") == 0 {
-				failClass[i] = rapid.SampledFrom([]string{"INSUFFICIENT_FUND", "VALIDATION", "NOT_FOUND", "INTERNAL"}).Draw(rt, "class")
+				failClass[i] = rapid.SampledFrom([]string{"INSUFFICIENT_FUND", "VALIDATION", "NOT_FOUND", "INTERNAL", "COMPILATION_FAILED", "NO_POSTINGS", "METADATA_OVERRIDE"}).Draw(rt, "class")
 			}
 		}
 		flag := rapid.SampledFrom([]string{"", "", "continueOnFailure=true", "continueOnFailure=false", "continueOnFailure=1", "continueOnFailure=TRUE", "continueOnFailure=yes"}).Draw(rt, "flag")
@@ -493,7 +497,14 @@ func c18RealEngine(rt *rapid.T, c *evid.Collector) {
 	// elements leave no trace, so the state is the same without continue-on-failure up to the stop
 	for i := 0; i < n; i++ {
 		mark := fmt.Sprint(2000 + i)
-		switch rapid.SampledFrom([]string{"fund", "fund", "spend-unfunded", "revert-ok", "revert-missing", "meta-account", "meta-missing-tx", "delete-account", "unknown"}).Draw(rt, "rkind") {
+		switch rapid.SampledFrom([]string{"fund", "fund", "spend-unfunded", "revert-ok", "revert-ok", "revert-spent", "revert-missing", "meta-account", "meta-missing-tx", "delete-account", "unknown"}).Draw(rt, "rkind") {
+		case "revert-spent":
+			// a transaction whose funds have moved on cannot be reverted unless the element says force: the
+			// element carries no force key at all (whatever an earlier element said must not stick)
+			els = append(els, el{`{"action":"CREATE_TRANSACTION","data":{"postings":[{"source":"world","destination":"acc` + mark + `","asset":"USD","amount":5}],"metadata":{"el":"` + mark + `"}}}`, true, "tx", mark})
+			els = append(els, el{`{"action":"CREATE_TRANSACTION","data":{"postings":[{"source":"acc` + mark + `","destination":"gone","asset":"USD","amount":5}],"metadata":{"el":"` + mark + `s"}}}`, true, "tx", mark + "s"})
+			els = append(els, el{fmt.Sprintf(`{"action":"REVERT_TRANSACTION","data":{"id":%d}}`, txs), false, "revert", fmt.Sprint(txs)})
+			txs += 2
 		case "fund":
 			els = append(els, el{`{"action":"CREATE_TRANSACTION","data":{"postings":[{"source":"world","destination":"acc` + mark + `","asset":"USD","amount":5}],"metadata":{"el":"` + mark + `"}}}`, true, "tx", mark})
 			txs++
